@@ -8,6 +8,7 @@ Ghost lock: `with self._lock:` sets 'lock_held'; every deque access emits a lock
 wf(pool):  used and free are duplicate-free and disjoint; |used| + |free| <= max_size;
            every object in used or free was created and never closed.
 """
+import ast
 import z3
 
 from pyvc import extract, ghost
@@ -447,6 +448,18 @@ def verify_pool_clear(E, prop):
                     ("lock-not-held-while-closing", z3.BoolVal(s.ghost.get("lock_held", 0) == 0))]
         E.loop_specs[(q, 0)] = LoopSpec(inv, shape="for $0 in $1", havoc=havoc)
         E.hooks["__list_literal__"] = None
+
+        def starred(E_, e, vals, s, fx):
+            # [*self._used_objs, *self._free_objs]: the same two-part view; each deque is iterated where the literal stands
+            # (the lock-discipline obligation is emitted there)
+            if isinstance(e, ast.List) and vals and all(isinstance(v, DequeV) for v in vals):
+                view = AllObjsV()
+                for v in vals:
+                    v._discipline(E_, s, "iter")
+                    view.parts.append(v.get(s))
+                return [Ev(s, view)]
+            return None
+        E.starred_literal_hook = starred
         # run with the list literal replaced: the engine creates a ListV for `[]`; intercept extend through a hook
         outs = run_clear(E, q, st, pool, AllObjsV)
         for o in outs:
@@ -578,7 +591,7 @@ POOLED_METHODS = ["set", "set_many", "replace", "append", "prepend", "cas", "get
 READS = ["get", "gat", "gats", "gets", "get_many", "gets_many"]
 KEYED = ["set", "set_many", "replace", "append", "prepend", "cas", "get", "gat", "gats", "get_many", "gets", "gets_many",
          "delete", "delete_many", "add", "incr", "decr", "touch"]
-ROUTE = {"slot": "C09", "forward": "C16", "miss": "C07", "async": "C10", "escape": "C08"}
+ROUTE = {"slot": "C09", "forward": "C16", "miss": "C07", "async": "C10", "escape": "C08", "input": "C20"}
 
 
 def rid(group, q, E):
@@ -660,7 +673,18 @@ def client_method_hook(mode):
         f.ghost["inner_exc"] = ex
         f.ghost["inner_sock_closed"] = True      # Client contract (C01/C06): a raising exit leaves its socket closed and dropped
         f.trace.append("inner %s raises" % name)
+        if name in KEYED:
+            # the failure outcome is a server or network failure; the rejection of an illegal key is the separate outcome below
+            f.assume(z3.Not(E.isinst_pred(ex, "MemcacheIllegalInputError")))
         outs.append(Ev(f, exc=ex))
+        if name in KEYED:
+            # Client contract (C20): an illegal key is rejected with MemcacheIllegalInputError before any I/O
+            g = st.fork()
+            ix = ExcV("MemcacheIllegalInputError", [])
+            g.ghost["inner_exc"] = ix
+            g.ghost["inner_input_error"] = True
+            g.trace.append("inner %s rejects the key" % name)
+            outs.append(Ev(g, exc=ix))
         if mode == "async":
             a = st.fork()
             ax = ExcV("AsyncInterrupt", exact=True)
@@ -816,6 +840,12 @@ def pooled_exit(E, q, meth, o, me, vals, want, params, has_varargs, ign, cfi, pl
     E.oblige("%s/inner-call-has-the-callers-arguments%s" % (rid("forward", q, E), E.case_suffix), s, z3.And(parts), func=q, kind="forward",
              meta={"method": meth, "pack": plabel})
     inner_exc, inner_res = s.ghost.get("inner_exc"), s.ghost.get("inner_result")
+    if s.ghost.get("inner_input_error"):
+        # C20: rejection is always MemcacheIllegalInputError - also through the pool, also with ignore_exc (an illegal key is not a
+        # server or network failure)
+        E.oblige("%s/a-rejected-key-raises-MemcacheIllegalInputError-through-the-pool%s" % (rid("input", q, E), E.case_suffix), s,
+                 T(o.kind == "raise" and inner_exc is not None and o.val.t.eq(inner_exc.t)), func=q, meta={"method": meth, "ignore_exc": bool(ign), "pooled_input": True})
+        return
     if o.kind == "return" and inner_exc is None:
         same = isinstance(o.val, OpaqueV) and inner_res is not None and o.val.t.eq(inner_res.t)
         if meth in ("quit", "shutdown"):
